@@ -628,7 +628,7 @@ func replay(c *common.Ctx, path string) int {
 
 func init() {
 	common.Register(&common.Prop{
-		ID: "C16", Level: "model_checking", Sharded: true, Run: run, Coverage: coverage, Replay: replay,
+		ID: "C16", Level: "model_checking", Sharded: true, Run: run, Coverage: coverage, Replay: replay, Race: raceBody,
 		Assumptions: []string{
 			"schedule points: goroutine start, every channel operation (the rewritten reflect.Select), close, thread end; code between two points is atomic (one logical thread runs at a time)",
 			"channel shadow semantics: buffered channels are driven through the real channel with non-blocking operations, unbuffered channels are a rendezvous performed by the scheduler; validated by free runs whose outcomes must lie in the explored set",
